@@ -46,7 +46,7 @@ def zsig(e, depth=0):
                 i0 = (t0.get('callee') or {}).get('inst', '') if t0 else ''
                 if re.match(r'^<(?:chrono::)?(?:offset::)?(?:\w+::)*Utc\b', i0 or ''):
                     return zsig(a0[2][-1], depth + 1)
-        if re.fullmatch(r'config::SmartCalcConfig::get_\w+', e[1]):
+        if re.fullmatch(r'config::SmartCalcConfig::get_\w+|compiler::\w+::\w+Item::get_\w+', e[1]):
             # a configuration accessor (get_time_offset): what it returns
             from ..facts import inline_calls, CURRENT
             e2 = inline_calls(CURRENT, e, depth=1)
